@@ -244,7 +244,8 @@ def lookup (x : Idx) (sha : Bytes) : Except Err Nat :=
     let idx := firstByte sha
     match (if idx = 0 then some 0 else x.fan[idx - 1]?), x.fan[idx]? with
     | some start, some end_ =>
-      if start > end_ then .error .other                         -- assert start <= end
+      if start > end_ then                                        -- `assert start <= end` / `raise ValueError("start > end")`
+        (if Gen.Pack.bisectBadBoundsIsAssert = 1 then .error .other else .error .format)
       else
         let hi := end_ + Gen.Pack.bisectInclusive - Gen.Pack.lookupEndSlack
         match bisect x.nameAt sha (hi - start) start hi with
